@@ -11,22 +11,33 @@ use serde_json::{Value, json};
 use std::sync::{Arc, Mutex};
 use std::time::Duration;
 
-const TIMEOUT_MS: u64 = 2000;
+/// request timeout in virtual-time runs (ms); real-time multi-thread runs use a tenth of it
+const TIMEOUT_VIRTUAL_MS: u64 = 2000;
 
 pub fn drive(a: &Args) -> i32 {
     let out = a.str("out", "/dev/stdout");
     let segments = a.num("segments", 20);
     let max_nodes = a.num("max_nodes", 12) as usize;
+    // mode=real: multi-thread runtime in real time (true thread interleavings of the tokio locks and the
+    // semaphore); bounds are relaxed by `mult`, the point of these runs is hangs, late requests and leaked tasks
+    let real = a.str("mode", "virtual") == "real";
+    #[allow(non_snake_case)]
+    let TIMEOUT_MS: u64 = if real { TIMEOUT_VIRTUAL_MS / 10 } else { TIMEOUT_VIRTUAL_MS };
+    let scale = if real { 10 } else { 1 };
     let mut t = Trace::create(&out);
-    let mut rng = common::rng(20);
+    let mut rng = common::rng(if real { 2020 } else { 20 });
     for seg in 0..segments {
-        let rt = net::paused_rt();
+        let rt = if real {
+            tokio::runtime::Builder::new_multi_thread().worker_threads(4).enable_all().build().expect("runtime")
+        } else {
+            net::paused_rt()
+        };
         let spec = ClusterSpec {
             n_real: rng.gen_range(2..=max_nodes),
             n_fake: 0,
             k: 8,
             request_timeout: Duration::from_millis(TIMEOUT_MS),
-            delay_max_ms: [0, 20, 300, 1500, 2900][rng.gen_range(0..5)],
+            delay_max_ms: [0, 20, 300, 1500, 2900][rng.gen_range(0..5)] / scale,
             p_silent: 0.0,
         };
         let hub_rng = common::rng(20_000 + seg);
@@ -50,7 +61,7 @@ pub fn drive(a: &Args) -> i32 {
             let mut hs = Vec::new();
             for o in 0..nops {
                 let kind = ["lookup", "put", "get", "lookup", "get"][rng.gen_range(0..5)];
-                let at = rng.gen_range(0..3000u64);
+                let at = rng.gen_range(0..3000u64) / scale;
                 let mut key = [0u8; 32];
                 rng.fill(&mut key);
                 let m = node.mgr.clone();
@@ -71,7 +82,7 @@ pub fn drive(a: &Args) -> i32 {
             for i in 1..n {
                 if rng.gen_bool(0.5) {
                     let m = c.reals[i].mgr.clone();
-                    let at = rng.gen_range(0..3000u64);
+                    let at = rng.gen_range(0..3000u64) / scale;
                     let mut key = [0u8; 32];
                     rng.fill(&mut key);
                     others.push(tokio::spawn(async move {
@@ -86,7 +97,7 @@ pub fn drive(a: &Args) -> i32 {
                 if rng.gen_bool(0.3) {
                     let hub = c.hub.clone();
                     let id = c.reals[i].id.clone();
-                    let at = rng.gen_range(0..4000u64);
+                    let at = rng.gen_range(0..4000u64) / scale;
                     silenced += 1;
                     tokio::spawn(async move {
                         tokio::time::sleep(Duration::from_millis(at)).await;
@@ -95,7 +106,7 @@ pub fn drive(a: &Args) -> i32 {
                 }
             }
             // stop at a seeded instant relative to the work in flight
-            let stop_at = rng.gen_range(0..6000u64);
+            let stop_at = rng.gen_range(0..6000u64) / scale;
             tokio::time::sleep(Duration::from_millis(stop_at)).await;
             let peers_known = c.hub.neighbours(&node.id).len();
             let stop_call = ms();
@@ -129,10 +140,10 @@ pub fn drive(a: &Args) -> i32 {
             let ops = log.lock().expect("log").clone();
             let nodes = c.reals.len();
             c.shutdown().await;
-            tokio::time::sleep(Duration::from_secs(120)).await;
+            tokio::time::sleep(Duration::from_millis(if real { 1500 } else { 120_000 })).await;
             net::settle().await;
             let tasks_after = tokio::runtime::Handle::current().metrics().num_alive_tasks();
-            events.push(json!({"ev":"Run","nodes":nodes,"peers":peers_known,"timeout":TIMEOUT_MS,"delay":spec.delay_max_ms,"silenced":silenced,
+            events.push(json!({"ev":"Run","mult": if real { 4 } else { 1 },"mode": if real { "real" } else { "virtual" },"nodes":nodes,"peers":peers_known,"timeout":TIMEOUT_MS,"delay":spec.delay_max_ms,"silenced":silenced,
                                "issued":nops,"ops":ops,"unfinished":unfinished,"stop_call":stop_call,"stop_ret":stop_ret,
                                "after_stop":after.len(),"after_stop_ops":after,"tasks_before":tasks_before,"tasks_after":tasks_after}));
         });
